@@ -189,6 +189,10 @@ func All() []Op {
 			e := c.GetSpecDirErrors()
 			return Result{Op: "GetSpecDirErrors", Obs: fmt.Sprint(len(e))}
 		}},
+		{"SetSpecValidator", false, func(w *World, c *cdi.Cache) Result {
+			cdi.SetSpecValidator(nil)
+			return Result{Op: "SetSpecValidator"}
+		}},
 		{"GetSpecDirectories", false, func(w *World, c *cdi.Cache) Result {
 			d := c.GetSpecDirectories()
 			return Result{Op: "GetSpecDirectories", Obs: fmt.Sprint(len(d))}
